@@ -213,6 +213,11 @@ class C19(Prop):
             return res
         base_text = docmodel.join(lines, "\n", final_nl)
         bad_text = docmodel.join(inject(lines, junk), "\n", final_nl)
+        if not bad_text.isascii() and sc["channel"]["channel"] in ("path", "Path", "stream") and not (
+                sc["channel"].get("explicit") and sc["channel"]["codec"] in ("utf-8", "utf-16", "utf-8-sig")):
+            # non-ASCII corpus text: file channels get an explicit Unicode codec (which codec lasio guesses for a BOM-less
+            # non-ASCII file is claimed by no property - the guess depends on how much of the file the first decode sees)
+            sc = dict(sc, channel=dict(sc["channel"], codec="utf-8", explicit=True))
         fs = SimFS(policy=Policy.from_json(sc["policy"]))
         with fs:
             try:
